@@ -340,7 +340,9 @@ pub fn run(c: &mut Ctx) {
         let mut fracs: Vec<u32> = if thorough || near {
             FRAC_CLASSES.to_vec()
         } else {
-            vec![FRAC_CLASSES[(secs % 3) as usize], FRAC_CLASSES[3 + ((secs / 3) % 3) as usize]]
+            // quick: one non-leap and two leap classes per ordinary second, rotating
+            let (a, b) = ((secs % 3) as usize, ((secs / 3) % 3) as usize);
+            vec![FRAC_CLASSES[a], FRAC_CLASSES[3 + b], FRAC_CLASSES[3 + (b + 1) % 3]]
         };
         if thorough {
             fracs.push(c.rng.below(1_000_000_000) as u32);
@@ -441,6 +443,9 @@ pub fn run(c: &mut Ctx) {
             c.op(&format!("tm.diff {secs} {fa} {sb} {fb}"), &match &ab { Ok(d) => show_td(d), Err(()) => "panic".into() });
             if k == 0 {
                 c.op(&format!("tm.cmp {secs} {fa} {sb} {fb}"), &gs(|| a.cmp(&b) as i32, |x| x.to_string()));
+                if guard(|| a.cmp(&b) as i32) != Ok(spec_diff((secs, fa), (sb, fb)).signum() as i32) {
+                    fl.hit(c, "derived order disagrees with the sign of the difference", &format!("tm.cmp {secs} {fa} {sb} {fb}"));
+                }
             }
             tl.add(match ((fa as i128) >= NS, (fb as i128) >= NS) {
                 (false, false) => "diff:no-leap",
